@@ -43,8 +43,33 @@ func c03Names() []string {
 	return out
 }
 
+// genC03 draws scenarios until no session's own traffic contains another session's tag by accident (random words
+// of a long payload can spell a short tag: the tag-ownership oracle would then blame the service for it).
 func genC03(seed uint64, idx int, tier string) *Scenario {
-	r := NewRng(seed, "c03")
+	for attempt := 0; ; attempt++ {
+		sc := genC03Try(NewRng(seed, fmt.Sprintf("c03/%d", attempt)), idx, tier)
+		clash := false
+		for i, a := range sc.Actors {
+			var sent []byte
+			for _, o := range a.Ops {
+				if o.K == "send" {
+					sent = append(sent, o.Bytes()...)
+				}
+			}
+			low := bytes.ToLower(sent)
+			for j, b := range sc.Actors {
+				if i != j && bytes.Contains(low, []byte(b.Name)) {
+					clash = true
+				}
+			}
+		}
+		if !clash || attempt > 20 {
+			return sc
+		}
+	}
+}
+
+func genC03Try(r *Rng, idx int, tier string) *Scenario {
 	names := c03Names()
 	pn := names[idx%len(names)]
 	p := protoTable[pn]
@@ -68,7 +93,7 @@ func genC03(seed uint64, idx int, tier string) *Scenario {
 	}
 	var tags []string
 	for i := 0; i < ns; i++ {
-		tag := fmt.Sprintf("q%c%s", 'a'+i, r.word(2, 2))
+		tag := fmt.Sprintf("q%c%s", 'a'+i, r.word(4, 4))
 		tags = append(tags, tag)
 		n := r.Range(1, 3)
 		cmds := p.Gen(r, tag, n)
